@@ -13,3 +13,4 @@ TECHNIQUE = "contract-based deductive verification (VCs from the ast of the real
 UNITS = [CK.unit_c05_sweep(), CK.unit_k1_witness(), CK.unit_is_unique_check_row(), CK.unit_check_resets(), CK.unit_distinct_count(), VIO.unit_validate_row(), VIO.unit_reader_rows(), VIO.unit_close()]
 from contracts import fields as FL
 UNITS += [CK.unit_is_unique_init(), CK.unit_distinct_count_init(), CK.unit_audit_first_token(), FL.unit_field_name_index()]
+UNITS += [VIO.unit_raw_rows().also("C05")]
